@@ -154,6 +154,27 @@ class DtcDop:
     tag = "dtc"
 
 
+def dtc_compu_simple(d: DtcDop) -> bool:
+    """the compu methods of a DTC-DOP the reference PDU builder places by hand: IDENTICAL, or LINEAR with integer coefficients,
+    denominator 1, a non-zero slope and no limits (trouble code = num0 + num1 * coded value, exactly)"""
+    c = d.compu
+    return isinstance(c, Identical) or (isinstance(c, Linear) and type(c.num0) is int and type(c.num1) is int and c.num1 != 0
+                                        and c.den == 1 and type(c.den) is int and c.lower is None and c.upper is None)
+
+
+def dtc_code_of_coded(d: DtcDop, x: int) -> int:
+    """coded value -> (physical) trouble code, for dtc_compu_simple DTC-DOPs"""
+    return x if isinstance(d.compu, Identical) else d.compu.num0 + d.compu.num1 * x
+
+
+def dtc_coded_of_code(d: DtcDop, tc: int) -> Optional[int]:
+    """(physical) trouble code -> the coded value whose exact image it is (None: it is not in the image)"""
+    if isinstance(d.compu, Identical):
+        return tc
+    q, r = divmod(tc - d.compu.num0, d.compu.num1)
+    return q if r == 0 else None
+
+
 def effective_dtcs(d: DtcDop, _depth=0) -> List[Tuple[int, str]]:
     """(trouble code, short name) of every DTC a DTC-DOP describes (ISO 22901-1 7.3.6.4 / odxtools `DtcDop.dtcs` after
     `Database.refresh()`): its DTC children, its DTC-REF children, then - per LINKED-DTC-DOP, in document order - the DTCs
